@@ -1,4 +1,4 @@
-import ScVerif.C02.Stamp
+import ScVerif.C02.Lin
 /-!
 # C02 — property theorems
 
@@ -147,6 +147,87 @@ theorem C02_real_time (env : Env) (s₀ : SStore M) (progs : Nat → List (Op M)
   rw [hk] at a4
   have := a4.2.1
   omega
+
+/-- **Linearizability, spelled out as one sequence.**  Take the calls that did not lose a race, in this order:
+for k = 0, 1, 2, …: the refused calls whose linearization index is k (in ANY arrangement `arr k` of them —
+they have no effect, so they commute), then the call that owns commit-log entry k; finally the refused calls
+of index `log.length`.  Then
+1. executing that sequence one call at a time on the sequential map specification, from the initial contents,
+   reproduces the result every call reported and ends in the current contents;
+2. every finished call that did not lose a race occurs in it, with its operation and its reported result;
+3. nothing else occurs in it, and no call occurs twice;
+4. it is ordered by `LinOrd` (linearization index; a committed call after the refused calls of its index) — and
+   `C02_real_time` says exactly that a call which responded before another was invoked is `LinOrd`-before it,
+   so the sequence is consistent with real time (two refused calls of one index can be arranged either way).
+Calls that lost a race (Aborted / Unavailable) are not in the sequence and have no effect
+(`C02_losers_have_no_effect`). -/
+theorem C02_linearizable (env : Env) (s₀ : SStore M) (progs : Nat → List (Op M)) (sched : List Nat) :
+    let c : Config M := run true env (initCfg s₀ progs) sched
+    ∀ (arr : Nat → List (Ev M)), (∀ k, (arr k).Perm (c.refusedAt k)) →
+      seqRun s₀ (linSeq s₀ c.log arr) = some (absS c.store) ∧
+      (∀ (t n : Nat) (r : Rec M), (c.threads t).done[n]? = some r → r.kind ≠ .raced →
+        ∃ ev, ev ∈ linSeq s₀ c.log arr ∧ ev.tid = t ∧ ev.idx = n ∧ ev.op = r.op ∧ ev.res = r.res ∧ ev.lin = r.lin) ∧
+      (∀ ev, ev ∈ linSeq s₀ c.log arr →
+        ∃ r, (c.threads ev.tid).done[ev.idx]? = some r ∧ r.kind ≠ .raced ∧ r.op = ev.op ∧ r.res = ev.res ∧
+          r.lin = ev.lin ∧ (ev.committed = true ↔ r.kind = .committed)) ∧
+      (linSeq s₀ c.log arr).Pairwise (fun x y => ¬ (x.tid = y.tid ∧ x.idx = y.idx)) ∧
+      (linSeq s₀ c.log arr).Pairwise LinOrd := by
+  intro c arr hperm
+  have h := (Inv.init s₀ progs).run env sched
+  have hl := (LInv.init s₀ progs).run true env sched
+  -- what membership in a block means
+  have block : ∀ k ev, ev ∈ arr k → EvSound c.threads k ev :=
+    fun k ev hev => hl.sound k ev ((hperm k).mem_iff.mp hev)
+  have refuses : ∀ k ev, k ≤ c.log.length → ev ∈ arr k →
+      specStep ev.op (replay s₀ (c.log.take k)) = (ev.res, replay s₀ (c.log.take k)) := by
+    intro k ev _ hev
+    obtain ⟨_, _, r, hr, hk, hlin, hop, hres⟩ := block k ev hev
+    obtain ⟨_, _, _, h4⟩ := (h.thr ev.tid).recs ev.idx r hr
+    rw [hk] at h4
+    rw [← hop, ← hres, ← hlin]
+    exact h4.1
+  have sound : ∀ ev, ev ∈ linSeq s₀ c.log arr →
+      ∃ r, (c.threads ev.tid).done[ev.idx]? = some r ∧ r.kind ≠ .raced ∧ r.op = ev.op ∧ r.res = ev.res ∧
+        r.lin = ev.lin ∧ (ev.committed = true ↔ r.kind = .committed) := by
+    intro ev hev
+    rcases mem_linSeq.mp hev with ⟨k, _, hk⟩ | ⟨k, e, he, hev'⟩
+    · obtain ⟨hlin, hcom, r, hr, hkind, hrl, hop, hres⟩ := block k ev hk
+      refine ⟨r, hr, by rw [hkind]; simp, hop, hres, by rw [hrl, hlin], ?_⟩
+      rw [hcom, hkind]; simp
+    · obtain ⟨r, v, hr, hlin, hop, hres⟩ := owner_of_entry h he
+      have hkind := kind_of_ok ((h.thr e.tid).recs e.idx r hr) hres
+      obtain ⟨_, _, hspec⟩ := committed_of_ok ((h.thr e.tid).recs e.idx r hr) hres
+      subst hev'
+      refine ⟨r, hr, by rw [hkind]; simp, hop, ?_, hlin, by simp [comEv, hkind]⟩
+      show r.res = (specStep e.op (replay s₀ (c.log.take k))).1
+      rw [← hspec, hop, hlin]
+  have harr : ∀ k ev, ev ∈ arr k → ev.lin = k ∧ ev.committed = false :=
+    fun k ev hev => ⟨(block k ev hev).1, (block k ev hev).2.1⟩
+  refine ⟨?_, ?_, sound, ?_, pairwise_linSeq s₀ c.log arr harr⟩
+  · rw [h.store]; exact seqRun_linSeq s₀ c.log arr refuses
+  · intro t n r hr hnr
+    obtain ⟨_, h2, h3, h4⟩ := (h.thr t).recs n r hr
+    replace h3 : r.resp ≤ c.log.length := h3
+    cases hk : r.kind with
+    | raced => exact absurd hk hnr
+    | refused =>
+      have hmem := (hperm r.lin).mem_iff.mpr (hl.complete t n r hr hk)
+      exact ⟨_, mem_linSeq.mpr (Or.inl ⟨r.lin, by omega, hmem⟩), rfl, rfl, rfl, rfl, rfl⟩
+    | committed =>
+      rw [hk] at h4
+      obtain ⟨⟨tm, he⟩, _, hres, _⟩ := h4
+      exact ⟨comEv s₀ c.log r.lin ⟨t, n, r.op, tm⟩, mem_linSeq.mpr (Or.inr ⟨r.lin, _, he, rfl⟩), rfl, rfl, rfl, hres, rfl⟩
+  · -- no call twice: two occurrences would stand for one record, hence one index and one kind
+    have hnd : ∀ k, ((arr k).map (fun ev => (ev.tid, ev.idx))).Nodup :=
+      fun k => ((hperm k).map _).nodup_iff.mpr (hl.nodup k)
+    refine (distinct_linSeq s₀ c.log arr harr hnd).imp_of_mem ?_
+    intro x y hx hy hd hsame
+    obtain ⟨rx, hrx, _, _, _, hlx, hcx⟩ := sound x hx
+    obtain ⟨ry, hry, _, _, _, hly, hcy⟩ := sound y hy
+    rw [hsame.1, hsame.2, hry] at hrx
+    cases hrx
+    refine hd (by rw [← hlx, ← hly]) ?_ (by rw [hsame.1, hsame.2])
+    cases hxc : x.committed <;> cases hyc : y.committed <;> simp_all
 
 /-- **Lost races are real.**  A call reports Aborted only when another call committed ON THE SAME ID inside
 its interval (or its id generator ran out of attempts), and a Delete gives up with Unavailable only after
@@ -531,6 +612,23 @@ example :
     (delRun.threads 0).done.map (·.res) = [.ok (some 8), .error .notFound] ∧
     (delRun.threads 0).done.map (·.kind) = [.committed, .refused] ∧
     (delRun.threads 1).done.map (·.res) = [.ok (some 8)] ∧ absS delRun.store 0 = none := by
+  decide
+
+/-- the linearization of that run: the increment, the Delete that retried, then the refused second Delete;
+executing it on the specification from the initial contents ends with id 0 absent -/
+example :
+    (linSeq (fun i => if i = 0 then some 7 else none) delRun.log delRun.refusedAt).map
+      (fun ev => (ev.tid, ev.idx, ev.lin, ev.committed, ev.res)) =
+      [(1, 0, 0, true, .ok (some 8)), (0, 0, 1, true, .ok (some 8)), (0, 1, 2, false, .error .notFound)] ∧
+    ((seqRun (fun i => if i = 0 then some 7 else none)
+      (linSeq (fun i => if i = 0 then some 7 else none) delRun.log delRun.refusedAt)).map (fun s => s 0)) = some none := by
+  decide
+
+/-- refused calls are filed under the index of the contents they read: two Adds of a present id -/
+example :
+    ((run true env₀ (initCfg (fun i => if i = 0 then some (7 : Int) else none)
+        (fun t => if t < 2 then [addOp 1] else [])) [0, 1]).refusedAt 0).map (fun ev => (ev.tid, ev.idx, ev.res)) =
+      [(0, 0, .error .alreadyExists), (1, 0, .error .alreadyExists)] := by
   decide
 
 end ScVerif.C02
